@@ -12,6 +12,7 @@ import mirparse
 from mirparse import split_top, strip_generics
 
 SOLVER_TIMEOUT_MS = 60000
+FORKER = [None]
 
 RANGES = {'u8': (0, 2**8 - 1), 'u16': (0, 2**16 - 1), 'u32': (0, 2**32 - 1), 'u64': (0, 2**64 - 1),
           'usize': (0, 2**64 - 1), 'u128': (0, 2**128 - 1), 'i8': (-2**7, 2**7 - 1), 'i16': (-2**15, 2**15 - 1),
@@ -44,6 +45,9 @@ class World:
         self.statics = {}
         self.notes = []
         self.decisions = 0
+        self._qcache = {}
+        self._keep = []
+        self.bounds = {}      # z3 ast id of a plain variable -> (lo, hi) asserted at creation / by restrict()
 
     # -- variables
     def fresh_int(self, tag, lo=None, hi=None):
@@ -53,7 +57,16 @@ class World:
             self.assume(v >= lo)
         if hi is not None:
             self.assume(v <= hi)
+        self.bounds[v.get_id()] = (lo if lo is not None else -(10**40), hi)
+        self._keep.append(v)
         return v
+
+    def restrict(self, v, lo, hi):
+        """assume lo <= v <= hi for a plain variable and remember it as a syntactic bound"""
+        self.assume(z3.And(v >= lo, v <= hi))
+        olo, ohi = self.bounds.get(v.get_id(), (lo, hi))
+        self.bounds[v.get_id()] = (max(lo, olo), hi if ohi is None else min(hi, ohi))
+        self._qcache.clear()
 
     def fresh_bool(self, tag):
         self.nfresh += 1
@@ -120,6 +133,9 @@ class World:
             return True
         if z3.is_false(cond):
             return False
+        q = self.quick_bool(cond)
+        if q is not None:
+            return q
         self.stats.branches += 1
         if self.pos < len(self.prefix):
             d = self.prefix[self.pos]
@@ -140,7 +156,19 @@ class World:
         r = self._check()
         self.solver.pop()
         if r == z3.sat:
-            self.alts.append(self.prefix + [0 if mv else 1])
+            fk = FORKER[0].try_fork() if FORKER[0] is not None else None
+            if fk is True:
+                # forked child: continue on the other side from here (state is a copy of the parent's)
+                self.alts = []
+                self.stats.__init__()
+                self.prefix.append(0 if mv else 1)
+                self.decisions += 1
+                self.solver.add(other)
+                self.model = None
+                self.pos += 1
+                return not mv
+            if fk is None:
+                self.alts.append(self.prefix + [0 if mv else 1])
             self.prefix.append(1 if mv else 0)
             self.decisions += 1
             self.solver.add(cond if mv else z3.Not(cond))
@@ -148,6 +176,111 @@ class World:
             self.prefix.append(2 if mv else 3)
         self.pos += 1
         return mv
+
+    # -- interval pre-evaluation from the syntactic bounds of variables (sound, deterministic, no solver)
+    def quick_int(self, e):
+        """(lo, hi) with None for unbounded"""
+        k = e.decl().kind()
+        if k == z3.Z3_OP_ANUM:
+            v = e.as_long()
+            return v, v
+        cache = self._qcache
+        i = e.get_id()
+        r = cache.get(i)
+        if r is not None:
+            return r[1]
+        r = (None, None)
+        if k == z3.Z3_OP_UNINTERPRETED and e.num_args() == 0:
+            b = self.bounds.get(i)
+            if b is not None:
+                r = (b[0] if b[0] > -(10**39) else None, b[1])
+        elif k == z3.Z3_OP_ADD:
+            lo, hi = 0, 0
+            for a in e.children():
+                l, h = self.quick_int(a)
+                lo = None if lo is None or l is None else lo + l
+                hi = None if hi is None or h is None else hi + h
+            r = (lo, hi)
+        elif k == z3.Z3_OP_SUB and e.num_args() == 2:
+            (al, ah), (bl, bh) = self.quick_int(e.arg(0)), self.quick_int(e.arg(1))
+            r = (None if al is None or bh is None else al - bh, None if ah is None or bl is None else ah - bl)
+        elif k == z3.Z3_OP_UMINUS:
+            l, h = self.quick_int(e.arg(0))
+            r = (None if h is None else -h, None if l is None else -l)
+        elif k == z3.Z3_OP_MUL and e.num_args() == 2:
+            (al, ah), (bl, bh) = self.quick_int(e.arg(0)), self.quick_int(e.arg(1))
+            if None not in (al, ah, bl, bh):
+                ps = [al * bl, al * bh, ah * bl, ah * bh]
+                r = (min(ps), max(ps))
+        elif k == z3.Z3_OP_ITE:
+            c = self.quick_bool(e.arg(0))
+            if c is True:
+                r = self.quick_int(e.arg(1))
+            elif c is False:
+                r = self.quick_int(e.arg(2))
+            else:
+                (al, ah), (bl, bh) = self.quick_int(e.arg(1)), self.quick_int(e.arg(2))
+                r = (None if al is None or bl is None else min(al, bl), None if ah is None or bh is None else max(ah, bh))
+        cache[i] = (e, r)       # keep the AST alive: z3 re-uses ids of freed terms
+        return r
+
+    def quick_bool(self, e):
+        k = e.decl().kind()
+        if k == z3.Z3_OP_TRUE:
+            return True
+        if k == z3.Z3_OP_FALSE:
+            return False
+        if k in (z3.Z3_OP_LE, z3.Z3_OP_LT, z3.Z3_OP_GE, z3.Z3_OP_GT, z3.Z3_OP_EQ, z3.Z3_OP_DISTINCT) and e.num_args() == 2:
+            a, b = e.arg(0), e.arg(1)
+            if not z3.is_int(a):
+                if k == z3.Z3_OP_EQ and z3.is_bool(a):
+                    x, y = self.quick_bool(a), self.quick_bool(b)
+                    if x is not None and y is not None:
+                        return x == y
+                return None
+            (al, ah), (bl, bh) = self.quick_int(a), self.quick_int(b)
+            if k in (z3.Z3_OP_GE, z3.Z3_OP_GT):
+                (al, ah), (bl, bh) = (bl, bh), (al, ah)
+                k = z3.Z3_OP_LE if k == z3.Z3_OP_GE else z3.Z3_OP_LT
+            if k == z3.Z3_OP_LE:
+                if ah is not None and bl is not None and ah <= bl:
+                    return True
+                if al is not None and bh is not None and al > bh:
+                    return False
+                return None
+            if k == z3.Z3_OP_LT:
+                if ah is not None and bl is not None and ah < bl:
+                    return True
+                if al is not None and bh is not None and al >= bh:
+                    return False
+                return None
+            disjoint = (ah is not None and bl is not None and ah < bl) or (al is not None and bh is not None and al > bh)
+            same = al is not None and al == ah == bl == bh
+            if k == z3.Z3_OP_EQ:
+                return False if disjoint else (True if same else None)
+            return True if disjoint else (False if same else None)
+        if k == z3.Z3_OP_NOT:
+            r = self.quick_bool(e.arg(0))
+            return None if r is None else (not r)
+        if k == z3.Z3_OP_AND:
+            allt = True
+            for a in e.children():
+                r = self.quick_bool(a)
+                if r is False:
+                    return False
+                if r is None:
+                    allt = False
+            return True if allt else None
+        if k == z3.Z3_OP_OR:
+            allf = True
+            for a in e.children():
+                r = self.quick_bool(a)
+                if r is True:
+                    return True
+                if r is None:
+                    allf = False
+            return False if allf else None
+        return None
 
     def _forced(self, cond):
         raise Unsupported('forced decision replay')
